@@ -1,5 +1,7 @@
 import EupsModel.Drv.Util
 import EupsModel.Model.FsEff
+import EupsModel.Model.FsTab
+import EupsModel.Model.FsCache
 namespace EupsModel.Drv.C08
 open Lean EupsModel EupsModel.Drv EupsModel.FsEff
 
@@ -86,7 +88,10 @@ def cmdOfJson (j : Json) : Except String Cmd := do
   match ← (← j.getObjVal? "op").getStr? with
   | "declare" => pure (.declare (← jnat j "p") (← jnat j "v") (← jnat j "f") (← optNat j "tag") (← jbool j "force"))
   | "untag" => pure (.untag (← jnat j "t") (← jnat j "p") (← jnat j "f") (← optNat j "v"))
-  | "undeclare" => pure (.undeclare (← jnat j "p") (← jnat j "v") (← jnat j "f"))
+  | "undeclare" =>
+    match ← optNat j "v" with
+    | some v => pure (.undeclare (← jnat j "p") v (← jnat j "f"))
+    | none => pure (.undeclareAny (← jnat j "p") (← jnat j "f"))
   | s => throw s!"unknown command {s}"
 
 def effToJson : Eff → Json
@@ -109,22 +114,116 @@ def listingToJson : Option (List (Id × Id × List Id)) → Json
   | none => Json.null
   | some l => Json.arr (l.map fun (p, v, ts) => Json.arr #[jn p, jn v, Json.arr (ts.map jn).toArray]).toArray
 
-/-- `{"m":"c08","atomic":bool,"fs":{dirs,files},"cmd":{…},"flavors":[…]}` → the effect list of the command, the
-records it may touch, and for every crash point `k = 0 … n` the state left behind, what a reader makes of each
-targeted record, and the listing of a fresh reader per flavor. -/
+def tkeyOfList : List Json → Except String TKey
+  | [p, v, f] => do pure ⟨← natOf p, ← natOf v, ← natOf f⟩
+  | _ => throw "table key"
+
+/-- `["main"|"tmp", "t", p, v, f]` -/
+def tpathOfJson (j : Json) : Except String TPath := do
+  match (← j.getArr?).toList with
+  | k :: _ :: rest =>
+    match ← k.getStr? with
+    | "main" => pure (.main (← tkeyOfList rest))
+    | "tmp" => pure (.tmp (← tkeyOfList rest))
+    | s => throw s!"table path kind {s}"
+  | _ => throw "table path"
+
+def tpathToJson : TPath → Json
+  | .main k => Json.arr #[Json.str "main", Json.str "t", jn k.p, jn k.v, jn k.f]
+  | .tmp k => Json.arr #[Json.str "tmp", Json.str "t", jn k.p, jn k.v, jn k.f]
+
+def tfileOfJson (j : Json) : Except String TFile := do
+  match j with
+  | Json.str "empty" => pure .empty
+  | Json.str "part" => pure .part
+  | _ => pure (.full (← natOf (← j.getObjVal? "tab")))
+
+def tfileToJson : TFile → Json
+  | .empty => Json.str "empty"
+  | .part => Json.str "part"
+  | .full n => Json.mkObj [("tab", jn n)]
+
+def tabsOfJson (j : Json) : Except String TabFs := do
+  (← j.getArr?).toList.mapM fun e => do
+    match (← e.getArr?).toList with
+    | [p, c] => pure (← tpathOfJson p, ← tfileOfJson c)
+    | _ => throw "table entry"
+
+def tabsToJson (t : TabFs) : Json :=
+  Json.arr (t.map fun (p, c) => Json.arr #[tpathToJson p, tfileToJson c]).toArray
+
+def teffToJson : TEff → Json
+  | .creat f => Json.arr #[Json.str "creat", tpathToJson f]
+  | .write f _ last => Json.arr #[Json.str "write", tpathToJson f, Json.bool last]
+  | .close f => Json.arr #[Json.str "close", tpathToJson f]
+  | .rename a b => Json.arr #[Json.str "rename", tpathToJson a, tpathToJson b]
+  | .unlink f => Json.arr #[Json.str "unlink", tpathToJson f]
+
+def eff2ToJson : Eff2 → Json
+  | .onRec e => effToJson e
+  | .onTab e => teffToJson e
+
+def cmd2OfJson (j : Json) : Except String Cmd2 := do
+  match ← (← j.getObjVal? "op").getStr? with
+  | "declaretab" =>
+    pure (.declareTab (← jnat j "p") (← jnat j "v") (← jnat j "f") (← optNat j "tag") (← jnat j "tab"))
+  | _ => pure (.plain (← cmdOfJson j))
+
+/-- `{"m":"c08","atomic":bool,"fs":{dirs,files},"tabs":[…]?,"cmd":{…},"flavors":[…]}` → the effect list of the
+command (records first, then the interned table file), the records it may touch, and for every crash point
+`k = 0 … n` the state left behind (records and table files), what a reader makes of each targeted record, and the
+listing of a fresh reader per flavor. -/
 def handle : Handler := fun j => do
   let cfg : Cfg := { atomic := ← jbool j "atomic" }
   let fs ← fsOfJson (← j.getObjVal? "fs")
-  let cmd ← cmdOfJson (← j.getObjVal? "cmd")
+  let tabs ← match j.getObjVal? "tabs" with
+    | .ok t => tabsOfJson t
+    | .error _ => pure []
+  let db : Db := { fs := fs, tabs := tabs }
+  let cmd ← cmd2OfJson (← j.getObjVal? "cmd")
   let flavors ← (← jarr j "flavors").mapM natOf
-  let effs := effects cfg fs cmd
-  let tg := targets fs cmd
+  -- with "cache_flavors": the product cache is part of the state and of the effects
+  match j.getObjVal? "cache_flavors" with
+  | .ok cf =>
+    let cfl ← (← cf.getArr?).toList.mapM natOf
+    let cfg3 : Cfg3 := { atomic := cfg.atomic }
+    let db3 : Db3 := { fs := fs, tabs := tabs, cache := cfl.map fun f => (CPath.main f, CFile.full 0) }
+    let effs := effects3 cfg3 cfl db3 cmd
+    let tg := targets fs cmd.onRecords
+    let ctmp : Json := Json.arr #[Json.str "ctmp"]
+    let cmain (f : Nat) : Json := Json.arr #[Json.str "cmain", jn f]
+    let ceffToJson : CEff → Json
+      | .creat _ => Json.arr #[Json.str "cache", Json.str "creat", ctmp]
+      | .write _ => Json.arr #[Json.str "cache", Json.str "write", ctmp]
+      | .fsync _ => Json.arr #[Json.str "cache", Json.str "fsync", ctmp]
+      | .close _ _ => Json.arr #[Json.str "cache", Json.str "close", ctmp]
+      | .rename _ f => Json.arr #[Json.str "cache", Json.str "rename", ctmp, cmain f]
+    let eff3ToJson : Eff3 → Json
+      | .onRec e => effToJson e
+      | .onTab e => teffToJson e
+      | .onCache e => ceffToJson e
+    let cacheToJson (t : CacheFs) : Json :=
+      Json.arr (t.filterMap fun (p, c) => match p, c with
+        | .main f, .full _ => some (Json.arr #[jn f, Json.str "complete"])
+        | .main f, .empty => some (Json.arr #[jn f, Json.str "empty"])
+        | _, _ => none).toArray
+    let states := (List.range (effs.length + 1)).map fun k =>
+      let s := crashAt3 cfg3 cfl db3 cmd k
+      Json.mkObj [("fs", fsToJson s.fs), ("tabs", tabsToJson s.tabs), ("cache", cacheToJson s.cache),
+        ("seen", Json.arr (tg.map fun r => seenToJson (read s.fs r)).toArray),
+        ("listing", Json.arr (flavors.map fun f => listingToJson (listing s.fs f)).toArray)]
+    pure (Json.mkObj [("effects", Json.arr (effs.map eff3ToJson).toArray),
+      ("targets", Json.arr (tg.map fun r => Json.arr (rpathToList r).toArray).toArray),
+      ("states", Json.arr states.toArray)])
+  | .error _ =>
+  let effs := effects2 cfg db cmd
+  let tg := targets fs cmd.onRecords
   let states := (List.range (effs.length + 1)).map fun k =>
-    let s := crashAt cfg fs cmd k
-    Json.mkObj [("fs", fsToJson s),
-      ("seen", Json.arr (tg.map fun r => seenToJson (read s r)).toArray),
-      ("listing", Json.arr (flavors.map fun f => listingToJson (listing s f)).toArray)]
-  pure (Json.mkObj [("effects", Json.arr (effs.map effToJson).toArray),
+    let s := crashAt2 cfg db cmd k
+    Json.mkObj [("fs", fsToJson s.fs), ("tabs", tabsToJson s.tabs),
+      ("seen", Json.arr (tg.map fun r => seenToJson (read s.fs r)).toArray),
+      ("listing", Json.arr (flavors.map fun f => listingToJson (listing s.fs f)).toArray)]
+  pure (Json.mkObj [("effects", Json.arr (effs.map eff2ToJson).toArray),
     ("targets", Json.arr (tg.map fun r => Json.arr (rpathToList r).toArray).toArray),
     ("states", Json.arr states.toArray)])
 
